@@ -192,3 +192,13 @@ Print Assumptions C01_sync_client_exceptions.
 Print Assumptions C01_async_recv_no_blockingio.
 Print Assumptions C01_recv_exceptions_closed.
 Print Assumptions C01_sync_exceptions_closed.
+
+(* --- and for a whole API call of either client (get, get_many, getnext, getbulk, fetch; any script of socket results):
+   what it raises is TimeoutError, an end-of-iteration signal, or an exception a socket method raised during that call *)
+Theorem C01_python_api_exceptions_closed :
+  forall (cfg : pycfg) (fuel : nat) (a : api) (script : list tok) (e : exc), r_end (run_api cfg fuel a script) = PRaise e -> added_exc e \/ In (TRaise e) script.
+Proof. exact api_exceptions_closed. Qed.
+
+Check C01_python_api_exceptions_closed :
+  forall (cfg : pycfg) (fuel : nat) (a : api) (script : list tok) (e : exc), r_end (run_api cfg fuel a script) = PRaise e -> added_exc e \/ In (TRaise e) script.
+Print Assumptions C01_python_api_exceptions_closed.
